@@ -391,6 +391,11 @@ def check(ctx):
                           'a replaced identity is reported as Replaced(previous identity)', site=ws[0]['span'],
                           construct='replaced-reports-old', facts={'conflict': show(conf, eb)})
         rep.floor('C09-R2', n, 1, 'replacement paths')
+        # "(reported as Rename)": every summary - whoever produced it - goes through handle_apply_summary, the only place
+        # that constructs Rename, which notifies it exactly when the conflict result is Replaced (C08-R1..R3, re-run here)
+        c08.r1_sites(ctx, f, _Rename(rep, 'C08-R1', 'C09-R2'), c08.notif_sites(ctx, f))
+        c08.r2_guards(ctx, f, _Rename(rep, 'C08-R2', 'C09-R2'))
+        c08.r3_summary_flow(ctx, f, _Rename(rep, 'C08-R3', 'C09-R2'))
         r3_own_address(ctx, f, rep)
         r4_inactive_payload(ctx, f, rep)
         r5_forget(ctx, f, rep)
